@@ -6,7 +6,7 @@
 
   `Privacy.Eval` idealises the classad evaluator as a function of the view alone. The real
   evaluator also resolves `PARENT.x` / `TARGET.x` in the scopes the view carries, so the scopes are
-  an input of the trailer too: `EvalS`. After fix a1f9ffc the scopes handed to the evaluator are
+  an input of the trailer too: `EvalS`. After fix ce45501 the scopes handed to the evaluator are
   redacted copies (`redactScope`); `Legacy` keeps the behaviour before it (scopes as they are).
   Core Lean only.
 -/
